@@ -289,6 +289,10 @@ def board_trace(job) -> List[Dict[str, Any]]:
                     # a card already played, by a seat whose hand the
                     # observer knows (before the opening lead: dummy not set)
                     evs.append(ev_play(tid, o, active, r.choice(used)))
+                # a refused play must not influence what is offered afterwards
+                evs.append(ev_avail(tid, o, 'own'))
+                evs.append(ev_avail(tid, o, 'dummy'))
+                evs.append(ev_avail(tid, man, 'hand', seat=active))
         # ---- the play ----
         if plays is not None:
             c = plays[k]
@@ -324,24 +328,35 @@ def board_trace(job) -> List[Dict[str, Any]]:
         # after the end: every further play is refused (no cards left)
         for s in range(4):
             evs.append(ev_play(tid, man, s, r.randrange(52)))
+        act = man.proj()['active']
+        for o in obs:
+            # the seat on turn, when it is a seat whose (empty) hand the
+            # observer knows, cannot play a 53rd card either
+            if act == o.me or (act == dummy and o.me != dummy):
+                evs.append(ev_play(tid, o, act, r.choice(used)))
+                evs.append(ev_play(tid, o, act, r.randrange(52)))
     return evs
 
 
 def trick_events(job) -> List[Dict[str, Any]]:
     """Winner table: every given 4-tuple x trump on a fresh PlayingPhase."""
-    tid0, tuples, trump, decl = job
+    tid0, tuples, trumps, decl = job
     out = []
     for k, t in enumerate(tuples):
-        ob = Obj(1, 'plain', NOSEAT, [[], [], [], []], trump, decl)
-        ok = True
-        for c in t:
-            p = ob.proj()
-            e = ev_play('x', ob, p['active'], c)
-            ok = ok and e['res'] == 'ok'
-        e = {'tid': f'{tid0}.{k}', 'ev': 'trick', 'o': 1, 'trump': trump,
-             'decl': decl, 'cards': list(t), 'res': 'ok' if ok else 'raises'}
-        e.update(ob.proj())
-        out.append(e)
+        # every trump on the same four cards in one process, in a rotating
+        # order (state kept between tricks / boards must not matter)
+        for j in range(len(trumps)):
+            trump = trumps[(j + k) % len(trumps)]
+            ob = Obj(1, 'plain', NOSEAT, [[], [], [], []], trump, (decl + j) % 4)
+            ok = True
+            for c in t:
+                p = ob.proj()
+                e = ev_play('x', ob, p['active'], c)
+                ok = ok and e['res'] == 'ok'
+            e = {'tid': f'{tid0}.{k}.{trump}', 'ev': 'trick', 'o': 1, 'trump': trump,
+                 'decl': (decl + j) % 4, 'cards': list(t), 'res': 'ok' if ok else 'raises'}
+            e.update(ob.proj())
+            out.append(e)
     return out
 
 
@@ -592,10 +607,9 @@ def run_into(chk: Check, pid: str, tier: str) -> None:
         if quick:
             tup = [t for j, t in enumerate(tup) if j % 5 == sd % 5]
         tj = []
-        per = 800
-        for trump in range(5):
-            for a in range(0, len(tup), per):
-                tj.append((f'w{trump}.{a}', tup[a:a + per], trump, (trump + a) % 4))
+        per = 200
+        for a in range(0, len(tup), per):
+            tj.append((f'w{a}', tup[a:a + per], list(range(5)), a % 4))
         for evs in pmap(trick_events, tj):
             events.extend(evs)
         chk.extra['winner_table'] = {'pack': pack, 'tuples': len(tup), 'trumps': 5}
